@@ -117,8 +117,11 @@ def build_cmd(engine, variant):
     if variant in ("fhex-release",):
         return ["cargo", "build", "--offline", "--release", "--features", "fasterhex", "--bin", engine,
                 "--target-dir", target_dir("fhex-release")], env
+    if variant == "nightly":
+        env["RUSTFLAGS"] = "--cfg vkit_nightly"
+        return ["cargo", "+nightly", "build", "--offline", "--bin", engine, "--target-dir", target_dir(variant)], env
     if variant in ("asan", "fhex-asan"):
-        env["RUSTFLAGS"] = "-Zsanitizer=address -Cforce-frame-pointers=yes"
+        env["RUSTFLAGS"] = "-Zsanitizer=address -Cforce-frame-pointers=yes --cfg vkit_nightly"
         argv = ["cargo", "+nightly", "build", "--offline", "--target", "x86_64-unknown-linux-gnu", "--bin", engine,
                 "--target-dir", target_dir(variant)]
         if variant == "fhex-asan":
@@ -150,6 +153,8 @@ def exe_path(engine, variant):
         return os.path.join(target_dir(variant), "debug", engine)
     if variant in ("fhex-release",):
         return os.path.join(target_dir("fhex-release"), "release", engine)
+    if variant == "nightly":
+        return os.path.join(target_dir(variant), "debug", engine)
     if variant in ("asan", "fhex-asan"):
         return os.path.join(target_dir(variant), "x86_64-unknown-linux-gnu", "debug", engine)
     raise ValueError(variant)
@@ -430,7 +435,7 @@ def check_property(prop, spec, tier, seed, replay=None):
     default_timeout = 900 if tier == "quick" else 5400
     jobs = []
     for r in runs:
-        trace = r.variant not in ("debug", "release", "fhex-debug", "fhex-release")
+        trace = r.variant not in ("debug", "release", "fhex-debug", "fhex-release", "nightly")
         for s in range(r.shards):
             jobs.append((r, s, trace))
     results = []
@@ -441,7 +446,7 @@ def check_property(prop, spec, tier, seed, replay=None):
 
     # ---- a native child that died outside an oracle: re-run with --trace to attribute
     for i, res in enumerate(results):
-        if res.run.variant in ("debug", "release", "fhex-debug", "fhex-release") and res.summary is None and not res.timed_out:
+        if res.run.variant in ("debug", "release", "fhex-debug", "fhex-release", "nightly") and res.summary is None and not res.timed_out:
             again = execute(res.run, res.shard, seed, tier, True, res.run.timeout or default_timeout)
             again.vlines = res.vlines or again.vlines
             results[i] = again
